@@ -261,6 +261,15 @@ def api_job(job):
             log = compiled.arun.project_log(probes.LOG.snapshot())
             t = compiled.project_run(st, cfg, gs0, ["run"], log, gs_f, _rng_index(gs0, cfg), f"{job.get('id')}/init{ea}_{sa}")
             out["runs"].append(t)
+        elif got_e == exp_e and got_s == exp_s:
+            # the last partition (where every out-of-range starting step is clipped to): its supervisor step is beyond rex's horizon, but reset()
+            # runs its other steps - they must be the last partition's, not an earlier one's (seeded change C09-f clipped one partition early)
+            st = static_for(gs0)
+            probes.LOG.clear()
+            gs_f = rj.exec_history(gs0, ["reset"])
+            log = compiled.arun.project_log(probes.LOG.snapshot())
+            t = compiled.project_run(st, cfg, gs0, ["reset"], log, gs_f, _rng_index(gs0, cfg), f"{job.get('id')}/init{ea}_{sa}last")
+            out["runs"].append(t)
     # 2. call histories
     for hi, (hist, nf, s0) in enumerate(job["api_histories"]):
         gs0 = G.init(jax.random.PRNGKey(job.get("seed", 0)), starting_eps=job.get("eps", 0), starting_step=s0)
